@@ -41,8 +41,15 @@ impl LexerError {
                 let digits = n + 1;
                 let spacer = "─".repeat(n);
                 let indentation = " ".repeat(n);
-                let pdu = context
-                    .lines()
+                // the excerpt ends with the last line that is not blank; the reported line can
+                // lie behind it (an error at the end of the input, after blank lines)
+                let mut context_lines = context.lines().collect::<Vec<_>>();
+                let reported = line.saturating_sub(start_line);
+                if context_lines.len() <= reported {
+                    context_lines.resize(reported + 1, "");
+                }
+                let pdu = context_lines
+                    .into_iter()
                     .enumerate()
                     .fold(String::new(), |acc, (i, l)| {
                         // the reported line is shown even if nothing but characters that
